@@ -14,7 +14,9 @@ META = {
                    'first failing operation).',
     'bounds': {
         'quick': {'arith chain length': '<= 3', 'operands/targets': 'unbounded symbolic ints', '** exponent': '0..3',
-                  'access chains': 'lists <= 4, slice i,j,k unbounded or None'},
+                  'access chains': 'lists <= 4, slice i,j,k unbounded or None',
+                  'argument order': '3-4 steps, failing operation x failing nested argument x kind of the last step, recorder in the target',
+                  'container operands': '10 binary operators x 11 x 11 operand kinds (list tuple set frozenset dict str bytearray bytes float bool None), twice per target'},
         'thorough': {'arith chain length': '<= 4', 'operands/targets': 'unbounded symbolic ints', '** exponent': '0..3',
                      'access chains': 'lists <= 4'},
     },
@@ -211,6 +213,112 @@ def nested_arg(shape: int, x: int, y: int, w: int, k: int, xs: List[int], i: int
               and a[5] == y and kw == {'kw': w, 's': 'w'})
         return ok or fail(why='args not passed as documented', a=a, kw=kw)
     return got == exp or fail(why='value', got=got, exp=exp)
+
+
+# ---- arguments are evaluated step by step, in order, only up to the first failing operation -------
+class Passer:
+    """callable in the target: records (step, value) and hands the value on"""
+    def __init__(self):
+        self.log = []
+
+    def __call__(self, step, value):
+        self.log.append(step)
+        return value
+
+
+def arg_order(fop: int, farg: int, last: int, x: int) -> bool:
+    """T['d'][a0][a1][a2] (+ a3): every a_k is a nested expression T['rec'](k, T['i<k>']) evaluated against the root target.
+    Direct Python evaluates a_k when step k is applied: a failing operation k (part k+1 of the expression) is reported
+    before any later argument is looked at, and no later argument is evaluated (the recorder shows which were)."""
+    start()
+    fop, farg, last = concretize(fop, -1, 3), concretize(farg, -1, 3), concretize(last, 0, 2)
+    if fop is OUT or farg is OUT or last is OUT:
+        return True
+    rec = Passer()
+    t = {'d': {'k0': {'k1': {'k2': x}}}, 'i0': 'k0', 'i1': 'k1', 'i2': 'k2', 'i3': 1, 'rec': rec}
+    if 0 <= fop <= 2:
+        t['i%d' % fop] = 'missing'
+    elif fop == 3:
+        t['i3'] = None
+    args = [T['rec'](k, T['i%d' % k] if k != farg else T['nope']) for k in range(4)]
+    spec = T['d'][args[0]][args[1]][args[2]]
+    n = 3
+    if last == 1:
+        spec, n = spec + args[3], 4
+    elif last == 2:
+        spec, n = spec * Spec(args[3]), 4
+    # reference: the same steps applied directly
+    exp_log, exp = [], None
+    cur = t['d']
+    for k in range(n):
+        if k == farg:
+            exp = ('nested', 1)                  # T['rec'](k, T['nope']): the failing operation of the NESTED expression is its
+            break                                # own part 1 (['rec'] is part 0, the call is part 1; T['nope'] inside it: part 0)
+        exp_log.append(k)
+        if k == fop:
+            exp = ('outer', k + 1)
+            break
+        cur = cur[t['i%d' % k]] if k < 3 else (cur + 1 if last == 1 else cur * 1)
+    try:
+        got = glom(t, spec, glom_debug=True)
+    except PathAccessError as e:
+        reach('arg_order_fails')
+        if exp is None:
+            return fail(why='unexpected PathAccessError', e=e)
+        if exp[0] == 'outer':
+            if e.part_idx != exp[1] or e.path.path_t is not spec:
+                return fail(why='the first failing operation and its position', part_idx=e.part_idx, exp=exp, path=e.path)
+        else:
+            if 'nope' not in repr(e.path) or e.part_idx != 0:
+                return fail(why='the failing nested argument surfaces as itself', part_idx=e.part_idx, path=e.path)
+        return rec.log == exp_log or fail(why='arguments evaluated', log=rec.log, exp_log=exp_log)
+    if exp is not None:
+        return fail(why='expected a PathAccessError', got=got, exp=exp)
+    reach('arg_order_value')
+    return (got == cur and rec.log == exp_log) or fail(why='value / arguments evaluated', got=got, exp=cur, log=rec.log)
+
+
+# ---- arithmetic on container / text operands: exactly `left op right`, never in place ----------------
+def _operand(kind, a, b):
+    return [[a, b], (a, b), {a, b}, frozenset([a, b]), {a: b}, 'ab', bytearray(b'ab'), b'ab', a + 0.5, a == b, None][kind]
+
+
+N_OPERANDS = 11
+
+
+def arith_containers(op: int, lk: int, rk: int, a: int) -> bool:
+    """left operand taken from the target, right operand a literal: the result (or the failure class) is that of the plain
+    binary operator -- list + tuple is a TypeError, not an extend -- and the target is left exactly as it was.
+    (set vs frozenset of a mixed set operation is not compared: the engine's set model differs from CPython there)"""
+    import copy
+    start()
+    op, lk, rk = concretize(op, 0, 11), concretize(lk, 0, N_OPERANDS - 1), concretize(rk, 0, N_OPERANDS - 1)
+    a, b = concretize(a, 0, 2), 1
+    if OUT in (op, lk, rk, a, b) or op in (INV, NEG) or (op == POW and lk >= 8 and rk >= 8):
+        return True
+    left, right = _operand(lk, a, b), _operand(rk, b, a)
+    t = {'l': left}
+    snap = copy.deepcopy(t)
+    try:
+        exp = ('ok', apply_op(copy.deepcopy(left), op, copy.deepcopy(right)))
+    except Exception as e:
+        exp = ('err', type(e))
+    spec = apply_op(T['l'], op, right)
+    outs = []
+    for _ in range(2):
+        try:
+            outs.append(('ok', glom(t, spec, glom_debug=True)))
+        except PathAccessError as e:
+            outs.append(('err', type(e.exc)))
+        if t != snap or type(t['l']) is not type(snap['l']):
+            return fail(why='the target was modified by evaluating an arithmetic T expression', t=t, snap=snap)
+    reach('arith_containers')
+    for o in outs:
+        if o[0] != exp[0] or (o[0] == 'err' and o[1] is not exp[1]) or (o[0] == 'ok' and not (o[1] == exp[1] and (type(o[1]) is type(exp[1]) or isinstance(exp[1], (set, frozenset))))):
+            return fail(why='not what the plain operator gives', got=o, exp=exp, left=left, right=right, op=OPNAMES[op])
+    if outs[0][0] == 'ok' and outs[0][1] is t['l'] and lk in (0, 2, 4, 6):      # a mutable container of the target
+        return fail(why='the result is the very container from the target (operated on in place)')
+    return True
 
 
 # ---- literal arguments of every other kind are passed through literally ------------------------
@@ -486,6 +594,11 @@ def obligations(tier):
                           name='bits2_%s_any' % OPNAMES_ID[c0]))
     for sh in range(12):
         obs.append(Ob(nested_arg, fixed={'shape': sh}, pre='len(xs) <= 3', name='nested_arg_%d' % sh))
+    for fop in range(-1, 4):
+        obs.append(Ob(arg_order, fixed={'fop': fop}, pre='-1 <= farg <= 3 and 0 <= last <= 2', name='arg_order_f%s' % (fop if fop >= 0 else 'none')))
+    for op in (ADD, SUB, MUL, FLOORDIV, MOD, AND, OR, XOR, POW, TRUEDIV):
+        obs.append(Ob(arith_containers, fixed={'op': op}, pre='0 <= lk <= %d and 0 <= rk <= %d and 0 <= a <= 2' % (N_OPERANDS - 1, N_OPERANDS - 1),
+                      name='arith_containers_%s' % OPNAMES_ID[op], timeout=None if tier == 'quick' else 900))
     for c0 in range(N_STEP_KINDS):
         obs.append(Ob(access2, fixed={'c0': c0}, pre='0 <= c1 < %d and len(xs) <= 3' % N_STEP_KINDS,
                       name='access2_%d_any' % c0))
@@ -511,6 +624,9 @@ def obligations(tier):
     obs.append(Ob(access2, fixed={'c0': 7}, pre='0 <= c1 < %d and len(xs) <= 3' % N_STEP_KINDS, twin='access_value',
                   name='access2_7'))
     obs.append(Ob(slice_full, pre='len(xs) <= 4', twin='slice', name='slice_full'))
+    obs.append(Ob(arg_order, fixed={'fop': 1}, pre='-1 <= farg <= 3 and 0 <= last <= 2', twin='arg_order_fails', name='arg_order_f1'))
+    obs.append(Ob(arg_order, fixed={'fop': -1}, pre='-1 <= farg <= 3 and 0 <= last <= 2', twin='arg_order_value', name='arg_order_fnone'))
+    obs.append(Ob(arith_containers, fixed={'op': ADD}, pre='0 <= lk <= %d and 0 <= rk <= %d and 0 <= a <= 2' % (N_OPERANDS - 1, N_OPERANDS - 1), twin='arith_containers', name='arith_containers_add'))
     obs.append(Ob(literal_args, fixed={'pos': 0}, pre='0 <= kind <= 11 and 0 <= x <= 1 and 2 <= y <= 3', twin='literal_arg', name='literal_args_pos0'))
     obs.append(Ob(literal_args, fixed={'pos': 1}, pre='0 <= kind <= 11 and 0 <= x <= 1 and 2 <= y <= 3', twin='literal_index', name='literal_args_pos1'))
     obs.append(Ob(build_twice, fixed={'op': MUL}, pre='0 <= k1 <= 4 and 0 <= k2 <= 4 and -2 <= x <= 2', twin='build_twice', name='build_twice_mul'))
